@@ -203,11 +203,121 @@ pub fn equality_graphs<S: ShortGroupSignatureScheme>(em: &mut Emitter, base: &mu
     }
 }
 
+fn expect_honest<S: ShortGroupSignatureScheme>(em: &mut Emitter, suite: &str, name: &str, scn: &Scn<S>) {
+    em.oracle_case(&format!("{} edge {} {}", suite, name, scn.mix.describe()));
+    em.count(&format!("edge:{}", name));
+    match scn.create() {
+        Out::Ok(p) => {
+            if !scn.verify(&p).is_ok() {
+                em.violation(&format!("honest-verify-rejected:{}", name), format!("{}: honest presentation rejected ({}): {}", suite, name, scn.mix.describe()), scn.replay(json!({"suite": suite, "case": name})));
+                return;
+            }
+            em.op(plan_line(&scn.schema, &p, suite), plan_class(&p, &scn.schema, &scn.nonce).0);
+            let js = serde_json::to_string(&p).unwrap();
+            match call(|| serde_json::from_str::<Presentation<S>>(&js)) {
+                Out::Ok(q) if scn.verify(&q).is_ok() => {}
+                _ => em.violation(&format!("json-roundtrip-rejected:{}", name), format!("{}: presentation rejected after a JSON round trip ({})", suite, name), scn.replay(json!({"suite": suite, "case": name}))),
+            }
+            let bare = serde_bare::to_vec(&p).unwrap();
+            match call(|| serde_bare::from_slice::<Presentation<S>>(&bare)) {
+                Out::Ok(q) if scn.verify(&q).is_ok() => {}
+                _ => em.violation(&format!("bare-roundtrip-rejected:{}", name), format!("{}: presentation rejected after a BARE round trip ({})", suite, name), scn.replay(json!({"suite": suite, "case": name}))),
+            }
+        }
+        o => em.violation(&format!("honest-create-failed:{}", name), format!("{}: Presentation::create {} on a well-formed true schema ({}): {}", suite, o.class(), name, scn.mix.describe()), scn.replay(json!({"suite": suite, "case": name}))),
+    }
+}
+
+/// value classes and sizes that random generation does not reach: claims whose message scalar is zero (scalar 0,
+/// number −2^63) hidden / disclosed / under every predicate, the ends of the number domain, a credential with more
+/// claims than any block size (40 … 128, the widest the library keys), six credentials under one equality statement
+pub fn edge_value_flows<S: ShortGroupSignatureScheme>(em: &mut Emitter, rng: &mut Rng, suite: &str) {
+    use credx::claim::*;
+    use credx::credential::{ClaimSchema, CredentialSchema};
+    use credx::issuer::Issuer;
+    use credx::statement::*;
+    let d = |v: &[&str]| vec![v.iter().map(|s| s.to_string()).collect::<Vec<String>>()];
+    let mut cases: Vec<(&str, Mix)> = vec![
+        ("zero-scalar-hidden", Mix { n_creds: 1, n_claims: 5, zero_ssn: true, disclosed: d(&["name"]), ..Default::default() }),
+        ("zero-scalar-disclosed", Mix { n_creds: 1, n_claims: 5, zero_ssn: true, disclosed: d(&["ssn"]), ..Default::default() }),
+        ("zero-scalar-commitment", Mix { n_creds: 1, n_claims: 5, zero_ssn: true, disclosed: d(&[]), commitment: Some(3), ..Default::default() }),
+        ("zero-scalar-verenc", Mix { n_creds: 1, n_claims: 5, zero_ssn: true, disclosed: d(&[]), verenc: Some((3, false)), ..Default::default() }),
+        ("zero-scalar-with-accumulators", Mix { n_creds: 1, n_claims: 5, zero_ssn: true, disclosed: d(&[]), revocation: true, membership: true, ..Default::default() }),
+        ("min-number-hidden", Mix { n_creds: 1, n_claims: 4, age: i64::MIN, disclosed: d(&["name"]), ..Default::default() }),
+        ("min-number-disclosed", Mix { n_creds: 1, n_claims: 4, age: i64::MIN, disclosed: d(&["age"]), ..Default::default() }),
+        ("min-number-commitment", Mix { n_creds: 1, n_claims: 4, age: i64::MIN, disclosed: d(&[]), commitment: Some(2), ..Default::default() }),
+        ("min-number-range", Mix { n_creds: 1, n_claims: 4, age: i64::MIN, disclosed: d(&[]), commitment: Some(2), range: Some((Some(i64::MIN), Some(i64::MIN + 5))), ..Default::default() }),
+        ("min-number-range-upper-only", Mix { n_creds: 1, n_claims: 4, age: i64::MIN, disclosed: d(&[]), commitment: Some(2), range: Some((None, Some(0))), ..Default::default() }),
+        ("max-number-range", Mix { n_creds: 1, n_claims: 4, age: i64::MAX, disclosed: d(&[]), commitment: Some(2), range: Some((Some(i64::MAX - 3), None)), ..Default::default() }),
+        ("min-number-verenc", Mix { n_creds: 1, n_claims: 4, age: i64::MIN, disclosed: d(&[]), verenc: Some((2, false)), ..Default::default() }),
+        ("six-credentials-one-equality", Mix { n_creds: 6, n_claims: 3, age: 30, disclosed: vec![vec![]; 6], equality: true, ..Default::default() }),
+    ];
+    if em.thorough() {
+        cases.push(("zero-scalar-verenc-decryptable", Mix { n_creds: 1, n_claims: 5, zero_ssn: true, disclosed: d(&[]), verenc: Some((3, true)), ..Default::default() }));
+        cases.push(("zero-scalar-ved", Mix { n_creds: 1, n_claims: 5, zero_ssn: true, disclosed: d(&[]), ved: Some(3), ..Default::default() }));
+        cases.push(("min-number-ved", Mix { n_creds: 1, n_claims: 4, age: i64::MIN, disclosed: d(&[]), ved: Some(2), ..Default::default() }));
+    }
+    for (name, mix) in cases {
+        let scn = Scn::<S>::build(rng, &mix);
+        expect_honest(em, suite, name, &scn);
+    }
+    // credentials with 40 … 128 claims (all five types in rotation), claims around multiples of 8 disclosed / committed
+    for n in if em.thorough() { vec![40usize, 65, 127, 128] } else { vec![40usize, 128] } {
+        let types = [ClaimType::Hashed, ClaimType::Number, ClaimType::Scalar, ClaimType::Enumeration];
+        let mut cs = vec![ClaimSchema { claim_type: ClaimType::Revocation, label: "c0".into(), print_friendly: false, validators: vec![] }];
+        for i in 1..n {
+            cs.push(ClaimSchema { claim_type: types[i % 4], label: format!("c{}", i), print_friendly: types[i % 4] == ClaimType::Hashed, validators: vec![] });
+        }
+        let schema = CredentialSchema::new(Some("wide"), None, &[], &cs).unwrap();
+        let (_public, mut issuer) = Issuer::<S>::new(&schema);
+        let mut claims: Vec<ClaimData> = vec![RevocationClaim::from(format!("wide-{}-{}", n, rng.below(1 << 20))).into()];
+        for i in 1..n {
+            claims.push(match types[i % 4] {
+                ClaimType::Hashed => HashedClaim::from(format!("text {}", i)).into(),
+                ClaimType::Number => NumberClaim::from(i as isize * 7 - 100).into(),
+                ClaimType::Scalar => ScalarClaim::from(rng.scalar()).into(),
+                _ => EnumerationClaim { dst: format!("c{}", i), value: (i % 5) as u8, total_values: 5 }.into(),
+            });
+        }
+        em.oracle_case(&format!("{} edge wide-credential {}", suite, n));
+        em.count("edge:wide-credential");
+        match call(|| issuer.sign_credential(&claims)) {
+            Out::Ok(b) => {
+                let sig = SignatureStatement { disclosed: ["c7", "c8", "c31", "c32", "c39"].iter().map(|s| s.to_string()).collect(), id: "sig0".to_string(), issuer: b.issuer.clone() };
+                let rev = RevocationStatement { id: "rev0".into(), reference_id: "sig0".into(), accumulator: b.issuer.revocation_registry, verification_key: b.issuer.revocation_verifying_key, claim: 0 };
+                let com = CommitmentStatement { id: "com0".into(), reference_id: "sig0".into(), message_generator: g1_from_dl(rng.scalar()), blinder_generator: g1_from_dl(rng.scalar()), claim: 33 };
+                let rg = RangeStatement { id: "rng0".into(), reference_id: "com0".into(), signature_id: "sig0".into(), claim: 33, lower: Some(0), upper: Some(1000) };
+                let ve = VerifiableEncryptionStatement { message_generator: G1Projective::GENERATOR, encryption_key: b.issuer.verifiable_encryption_key, id: "ve0".into(), reference_id: "sig0".into(), claim: 38, allow_message_decryption: false };
+                let stmts: Vec<Statements<S>> = vec![sig.into(), rev.into(), com.into(), rg.into(), ve.into()];
+                let schema = PresentationSchema::new_with_id(&stmts, "wide");
+                let mut creds: indexmap::IndexMap<String, credx::presentation::PresentationCredential<S>> = indexmap::IndexMap::new();
+                creds.insert("sig0".into(), b.credential.clone().into());
+                let nonce = rng.bytes(16);
+                let ok = match call(|| Presentation::create(&creds, &schema, &nonce)) {
+                    Out::Ok(p) => {
+                        let dm_ok = p.disclosed_messages.get("sig0").map(|m| m.len() == 5 && m.iter().all(|(l, c)| crate::claims::claim_str(c) == crate::claims::claim_str(&claims[l[1..].parse::<usize>().unwrap()]))).unwrap_or(false);
+                        if !dm_ok {
+                            em.violation("wide-credential-disclosure", format!("{}: presentation over a wide credential does not report the five requested claims with their signed values", suite), json!({"suite": suite, "n": n}));
+                        }
+                        call(|| p.verify(&schema, &nonce)).is_ok()
+                    }
+                    _ => false,
+                };
+                if !ok {
+                    em.violation("honest-verify-rejected:wide-credential", format!("{}: honest presentation over a credential with {} claims is not created / accepted", suite, n), json!({"suite": suite, "n": n}));
+                }
+            }
+            o => em.violation("wide-credential-issuance-failed", format!("{}: issuing a credential with {} claims failed ({})", suite, n, o.class()), json!({"suite": suite, "n": n})),
+        }
+    }
+}
+
 pub fn gen_c03(em: &mut Emitter, rng: &mut Rng) {
     em.rule = "random well-formed scenarios (1..3 credentials from distinct issuers, 3..6 claims of all five types, random disclosure subsets, \
                statement graphs over revocation / membership / equality / commitment / range (all bound patterns) / verifiable encryption (with and \
                without scalar decryption) / encrypt-and-decrypt, shuffled statement order, nonces of length 0/1/16/32): honest create must succeed and \
-               verify, also after BARE, JSON and CBOR round trips; distinct by (suite, mix)".into();
+               verify, also after BARE, JSON and CBOR round trips; distinct by (suite, mix); edge value classes: zero-scalar claims (scalar 0, number −2^63) hidden / disclosed / under each predicate, \
+               ends of the number domain, 40- and 128-claim credentials, six credentials under one equality statement".into();
     let n = em.n(14, 400);
     run_suite::<Bbs>(em, rng, "bbs", n);
     run_suite::<Ps>(em, rng, "ps", n);
@@ -215,6 +325,12 @@ pub fn gen_c03(em: &mut Emitter, rng: &mut Rng) {
     equality_graphs::<Ps>(em, rng, "ps");
     // equal signed values in other representations / at other positions, schema taken from its wire form
     let base = 2 * n + 8;
+    if em.mine(base + 2) {
+        edge_value_flows::<Bbs>(em, &mut rng.sub(9101), "bbs");
+    }
+    if em.mine(base + 3) {
+        edge_value_flows::<Ps>(em, &mut rng.sub(9102), "ps");
+    }
     if em.mine(base) {
         crate::c05::c09_representations::<Bbs>(em, &mut rng.sub(9005), "bbs", "c03");
         crate::c05::equality_positions::<Bbs>(em, &mut rng.sub(9007), "bbs", "c03");
